@@ -94,7 +94,7 @@ fn emit(run: &mut Runner, fam: &'static str, kind: String, bytes: Vec<u8>) {
         ("kind", json!(kind)),
         ("bytes", jbytes(&bytes)),
     ]);
-    run.case(base, || decode_by_fam(fam, &bytes));
+    run.case(base, || decode_twice(fam, &bytes));
 }
 
 
@@ -346,7 +346,7 @@ fn emit_mut(run: &mut Runner, fam: &'static str, kind: String, bytes: Vec<u8>) {
         ("mut", json!(1)),
         ("bytes", jbytes(&bytes)),
     ]);
-    run.case(base, || decode_by_fam(fam, &bytes));
+    run.case(base, || decode_twice(fam, &bytes));
 }
 
 pub fn pwb_devices() -> Vec<u32> {
